@@ -421,6 +421,27 @@ class Run:
             if canon.state(st) != text0:
                 self.c20_findings.append({"sig": "input-state-mutated", "detail": "after rejected mix", "step": len(self.records)})
 
+        # (3) multiplicity / competing offers: a second transition for a component that has just
+        #     changed its phase in the same action is rejected at its turn -> the whole step fails
+        same = {}
+        for t in offers:
+            same.setdefault(t.component_id, []).append(t)
+        cands = [v for v in same.values()]
+        if cands:
+            grp = rnd.choice(cands)
+            first = rnd.choice(grp)
+            second = rnd.choice(grp)  # the same offer again, or a competing offer for the same component
+            others = [t for t in chosen if t.component_id != first.component_id and t.job_id not in (first.job_id, second.job_id)]
+            mix = others + [first, second]
+            ok = self.sm_step(mix, tm=1)
+            r = self.records[-1].result
+            if ok and (r.success or r.state is not st or r.state != st or tuple(r.possible_transitions) != ()):
+                self.c20_findings.append({"sig": "rejected-action-had-effect",
+                                          "detail": f"two transitions for {first.component_id} in one action {mix}: success={r.success}",
+                                          "step": len(self.records)})
+            if canon.state(st) != text0:
+                self.c20_findings.append({"sig": "input-state-mutated", "detail": "after duplicate/competing mix", "step": len(self.records)})
+
     def probe_env_failure(self):
         """C20: a failed step makes the environment truncate and keep its state (injected failure)"""
         env = self.env
